@@ -10,7 +10,8 @@ import time
 from . import tlc
 
 VERIF = os.path.dirname(os.path.dirname(os.path.abspath(__file__)))
-REPO = os.environ.get("VERIF_REPO", "/repo")
+REPO = os.environ.get("VERIF_REPO", "/repo")      # development aid only (seeded changes tried in a scratch worktree); registered commands never set it
+OUT = os.environ.get("VERIF_OUT", VERIF)          # likewise: where evidence/ and replays/ go
 LEVELS = ("exploration", "fault_enumeration", "model_checking", "proof", "translation_validation", "other")
 
 
@@ -37,7 +38,7 @@ class Check(object):
         self.rng = random.Random(seed)
         self.t0 = time.time()
         self.scratch = tlc.make_scratch(pid)
-        shutil.rmtree(os.path.join(VERIF, "replays", pid), ignore_errors=True)   # replay files belong to one run
+        shutil.rmtree(os.path.join(OUT, "replays", pid), ignore_errors=True)   # replay files belong to one run
         self.findings = [f for f in load_findings() if f.get("property") == pid and f.get("status") == "known"]
         self.violations = []      # unlisted
         self._vsigs = {}
@@ -93,7 +94,7 @@ class Check(object):
             self.violations.append((signature, self._vsigs[k][0]))
             return True
         digest = hashlib.sha1(canon([signature, detail]).encode()).hexdigest()[:12]
-        d = os.path.join(VERIF, "replays", self.pid)
+        d = os.path.join(OUT, "replays", self.pid)
         os.makedirs(d, exist_ok=True)
         path = os.path.join(d, digest + ".json")
         with open(path, "w") as f:
@@ -132,8 +133,8 @@ class Check(object):
         ev = {"property_id": self.pid, "tier": self.tier, "seed": int(self.seed), "level": self.level,
               "coverage": cov, "assumptions": self.assumptions, "wall_s": round(wall, 2),
               "violations": len(self.violations)}
-        os.makedirs(os.path.join(VERIF, "evidence"), exist_ok=True)
-        with open(os.path.join(VERIF, "evidence", self.pid + ".json"), "w") as f:
+        os.makedirs(os.path.join(OUT, "evidence"), exist_ok=True)
+        with open(os.path.join(OUT, "evidence", self.pid + ".json"), "w") as f:
             json.dump(ev, f, indent=1, sort_keys=True, default=str)
             f.write("\n")
         for fid, n in sorted(self.known_hits.items()):
@@ -230,7 +231,7 @@ def repo_test_traces(chk, which, select=None, cap=4000, timeout=1800):
     env = dict(os.environ, STIX2_VERIF_TRACE=out, STIX2_VERIF_TRACE_WHICH=",".join(which), STIX2_VERIF_TRACE_CAP=str(cap), PYTHONPATH=VERIF, PYTHONDONTWRITEBYTECODE="1")
     cmd = ["/venv/bin/python", "-m", "pytest", "-q", "-p", "harness.record_plugin", "-p", "no:cacheprovider", "--timeout=900", "--continue-on-collection-errors"] + list(select or [])
     t0 = time.time()
-    p = subprocess.run(cmd, cwd="/repo", env=env, stdout=subprocess.PIPE, stderr=subprocess.STDOUT, text=True, timeout=timeout)
+    p = subprocess.run(cmd, cwd=REPO, env=dict(env, PYTHONPATH=VERIF + (os.pathsep + REPO if REPO != "/repo" else "")), stdout=subprocess.PIPE, stderr=subprocess.STDOUT, text=True, timeout=timeout)
     if p.returncode not in (0, 1) or not os.path.exists(os.path.join(out, "summary.json")):
         raise tlc.TlcFailure("recording run of the repository tests failed (exit %s):\n%s" % (p.returncode, p.stdout[-2000:]))
     summary = json.load(open(os.path.join(out, "summary.json")))
